@@ -657,6 +657,7 @@ pub fn description_states(
         };
         states.push(js(json!({"prog": serde_json::to_value(prog).unwrap(), "seeds": seeds})));
         let pair = Def::strukt(&["g", "w"], "Pair", &["T"], named(vec![("p", Ty::Param(0))]));
+        let tagged = Def::strukt(&["g", "w"], "Tagged", &["T"], unnamed(vec![Ty::Param(0), Ty::Prim(Prim::Bool)]));
         let tup = Ty::Tuple(vec![U8, U16]);
         let host = Def::strukt(
             &["g", "w"],
@@ -669,10 +670,14 @@ pub fn description_states(
                 ("d", Ty::Result(b(Ty::Tuple(vec![])), b(U8))),
                 ("e", Ty::Vec(b(Ty::Named(0, vec![Ty::Tuple(vec![])])))),
                 ("f", Ty::Option(b(Ty::Named(0, vec![Ty::Tuple(vec![])])))),
+                ("g", Ty::Named(2, vec![tup.clone()])),
+                ("h", Ty::Named(2, vec![tup.clone()])),
+                ("i", Ty::Vec(b(Ty::Named(2, vec![Ty::Tuple(vec![])])))),
+                ("j", Ty::Named(2, vec![Ty::Tuple(vec![])])),
             ]),
         );
         let prog = Program {
-            defs: vec![pair, host],
+            defs: vec![pair, host, tagged],
             roots: vec![Ty::Named(1, vec![])],
         };
         states.push(js(json!({"prog": serde_json::to_value(prog).unwrap(), "seeds": seeds})));
